@@ -746,4 +746,263 @@ theorem illFormed_invalid :
       [0xF8, 0x88, 0x80, 0x80], [0xFE], [0xFF], [0x80], [0xC2], [0x10, 0x80]] : List Bytes).all
       (fun b => !validUtf8 b) = true := by decide
 
+/-! ## the trailer octets across an item boundary (hardening: "a protocol constant straddling two items")
+
+`valid_not_csbk` says that a len-value field never ENDS in `10 80`.  The octets can still occur inside a
+serialised registration request: formed by the last octet of one item and the first octet of the next
+(an identifier ending in U+0010 followed by a field of exactly 128 octets).  `hasPair a b bs` says that
+`a b` occur as neighbours somewhere in `bs`; `reg_front_pairs` lists, for every ASCII octet `a` and every
+continuation octet `b`, the only places where the pair can be in the part of a registration request in
+front of the trailer — always across an item boundary, never inside a field — and
+`reg_trailer_sites` / `other_trailer_sites` specialise this to `10 80`: four places in registration
+requests, none in the other PDU types.  `dec_enc` holds there like everywhere else (`Props/C16.lean`
+states the instance). -/
+
+/-- the octets `a b` occur somewhere in `bs` as neighbours -/
+def hasPair (a b : Nat) : Bytes → Bool
+  | x :: y :: r => (x == a && y == b) || hasPair a b (y :: r)
+  | _ => false
+
+theorem hasPair_cons (a b x : Nat) (Y : Bytes) :
+    hasPair a b (x :: Y) = ((x == a && Y.head? == some b) || hasPair a b Y) := by
+  cases Y with
+  | nil => simp [hasPair]
+  | cons y r => simp [hasPair]
+
+theorem hasPair_append (a b : Nat) (X Y : Bytes) :
+    hasPair a b (X ++ Y)
+      = (hasPair a b X || (X.getLast? == some a && Y.head? == some b) || hasPair a b Y) := by
+  induction X with
+  | nil => simp [hasPair]
+  | cons x xs ih =>
+    rw [List.cons_append, hasPair_cons, hasPair_cons, ih]
+    cases xs with
+    | nil => simp [hasPair]
+    | cons z zs => simp [List.getLast?_cons_cons, Bool.or_assoc]
+
+/-- a continuation octet never follows an ASCII octet inside well-formed UTF-8 -/
+theorem pairs_noPair (a b : Nat) (ha : a < 0x80) (hb : isCont b = true) (v : Bytes) :
+    ∀ prev, pairsOk prev v = true → hasPair a b v = false := by
+  induction v with
+  | nil => intro _ _; rfl
+  | cons x xs ih =>
+    intro prev h
+    rw [hasPair_cons]
+    simp only [pairsOk, Bool.and_eq_true] at h
+    rw [ih x h.2, Bool.or_false]
+    cases xs with
+    | nil => simp
+    | cons y r =>
+      simp only [pairsOk, Bool.and_eq_true] at h
+      have h1 := h.2.1
+      simp only [List.head?_cons]
+      by_cases hx : x = a
+      · by_cases hy : y = b
+        · subst hx hy
+          simp [hb] at h1
+          omega
+        · simp [hy]
+      · simp [hx]
+
+theorem valid_noPair (a b : Nat) (ha : a < 0x80) (hb : isCont b = true) (v : Bytes)
+    (hv : validUtf8 v = true) : hasPair a b v = false :=
+  pairs_noPair a b ha hb v 0 (valid_pairs v hv 0)
+
+/-- well-formed UTF-8 does not start with a continuation octet -/
+theorem valid_head (b : Nat) (hb : isCont b = true) (v : Bytes) (hv : validUtf8 v = true) :
+    (v.head? == some b) = false := by
+  cases v with
+  | nil => rfl
+  | cons x xs =>
+    simp only [List.head?_cons]
+    by_cases hx : x = b
+    · subst hx
+      have := isCont_ge hb
+      have h2 : x ≤ 0xBF := by simp [isCont] at hb; omega
+      have : validUtf8 (x :: xs) = false := by
+        rw [validUtf8.eq_def]
+        simp only []
+        rw [if_neg (by omega), if_neg (by omega), if_neg (by omega), if_neg (by omega)]
+      rw [this] at hv
+      cases hv
+    · simp [hx]
+
+/-- the last octet of the len-value item of `v`: the last octet of `v`, or the length octet 0 -/
+def lastOf (v : Bytes) : Nat := v.getLast?.getD 0
+
+theorem lv_getLast (v : Bytes) : (v.length :: v).getLast? = some (lastOf v) := by
+  cases v with
+  | nil => rfl
+  | cons x xs =>
+    simp only [lastOf, List.length_cons]
+    cases xs with
+    | nil => rfl
+    | cons y ys =>
+      rw [List.getLast?_cons_cons]
+      cases h : (y :: ys).getLast? with
+      | none => simp at h
+      | some z => rfl
+
+/-- inside one len-value item holding well-formed UTF-8 an ASCII octet is never followed by a
+continuation octet -/
+theorem lv_noPair (a b : Nat) (ha : a < 0x80) (hb : isCont b = true) (v : Bytes)
+    (hv : validUtf8 v = true) : hasPair a b (v.length :: v) = false := by
+  rw [hasPair_cons, valid_noPair a b ha hb v hv, valid_head b hb v hv]
+  simp
+
+
+theorem reg_front_pairs (a b : Nat) (ha : a < 0x80) (hb : isCont b = true) (r d u w : Bytes)
+    (hi lo hbyte : Nat) (hr : r.length ≤ 1) (vd : validUtf8 d = true) (vu : validUtf8 u = true)
+    (vw : validUtf8 w = true) :
+    hasPair a b (hi :: lo :: hbyte :: (r ++ (d.length :: d) ++ (u.length :: u) ++ (w.length :: w)))
+      = ((hi == a && lo == b) || (lo == a && hbyte == b)
+          || (hbyte == a && (r ++ [d.length]).head? == some b)
+          || (r.getLast? == some a && d.length == b)
+          || (lastOf d == a && u.length == b) || (lastOf u == a && w.length == b)) := by
+  have nd := lv_noPair a b ha hb d vd
+  have nu := lv_noPair a b ha hb u vu
+  have nw := lv_noPair a b ha hb w vw
+  have ld := lv_getLast d
+  have lu := lv_getLast u
+  match r, hr with
+  | [], _ =>
+    simp only [List.nil_append]
+    rw [hasPair_cons, hasPair_cons, hasPair_cons, hasPair_append, hasPair_append, nd, nu, nw,
+      List.getLast?_append, lu, ld]
+    simp [Bool.or_assoc]
+  | [rb], _ =>
+    rw [hasPair_cons, hasPair_cons, hasPair_cons, hasPair_append, hasPair_append, hasPair_append, nd, nu, nw,
+      List.getLast?_append, List.getLast?_append, lu, ld]
+    simp [Bool.or_assoc, hasPair]
+
+
+theorem lastOf_eq (v : Bytes) (a : Nat) (ha : a ≠ 0) : (lastOf v == a) = (v.getLast? == some a) := by
+  unfold lastOf
+  cases v.getLast? with
+  | none => simp; omega
+  | some x => simp
+
+theorem rrh_not_dle : ∀ rr, rrhOfByte 16 ≠ .ok rr := by
+  intro rr h
+  have : rrhOfByte 16 = .error .value := by rfl
+  rw [this] at h
+  cases h
+
+/-- where the octets `10 80` can occur in a serialised registration request, the trailer set aside -/
+theorem reg_trailer_sites (p : Msg) (hwf : wf p = true) (ht : p.header.ptype.isReg = true) (bs : Bytes)
+    (h : asBytes p = .ok bs) :
+    ∃ hb front, headerByte p.header = .ok hb ∧ bs = front ++ trailer p ∧
+      (hasPair 16 128 front = true ↔
+        ((bs.length - 2) % 256 = 16 ∧ hb = 128) ∨
+        (hb = 16 ∧ (p.device.getD []).length = 128) ∨
+        ((p.device.getD []).getLast? = some 16 ∧ (p.user.getD []).length = 128) ∨
+        ((p.user.getD []).getLast? = some 16 ∧ (p.password.getD []).length = 128)) := by
+  obtain ⟨hb, b, hh, hbody, h16, rfl⟩ := asBytes_shape p bs h
+  obtain ⟨r, hr, v1, v2, v3, l1, l2, l3, hb'⟩ := body_reg p hwf ht
+  rw [hbody] at hb'
+  injection hb' with hb'
+  subst hb'
+  have tl := trailer_len p
+  generalize trailer p = t at *
+  generalize hd : p.device.getD [] = d at *
+  generalize hu : p.user.getD [] = u at *
+  generalize hw : p.password.getD [] = w at *
+  have hrl : r.length ≤ 1 := by
+    split at hr
+    · obtain ⟨_, _, _, h, _⟩ := hr; simp [h]
+    · simp [hr]
+  have hn : 1 + (r ++ d.length :: d ++ u.length :: u ++ w.length :: w).length + t.length
+      = r.length + d.length + u.length + w.length + t.length + 4 := by
+    simp only [List.length_append, List.length_cons]; omega
+  rw [hn] at h16 ⊢
+  clear hn h hbody
+  generalize hnn : r.length + d.length + u.length + w.length + t.length + 4 = n at *
+  refine ⟨hb, n / 256 :: n % 256 :: hb :: (r ++ (d.length :: d) ++ (u.length :: u) ++ (w.length :: w)), hh,
+    by simp, ?_⟩
+  have hlen : (n / 256 :: n % 256 :: hb :: (r ++ d.length :: d ++ u.length :: u ++ w.length :: w ++ t)).length - 2
+      = n := by
+    simp only [List.length_append, List.length_cons]; omega
+  rw [hlen]
+  rw [reg_front_pairs 16 128 (by omega) (by decide) r d u w _ _ hb hrl v1 v2 v3,
+    lastOf_eq d 16 (by omega), lastOf_eq u 16 (by omega)]
+  -- the header octet
+  have hbv : hb = 128 * p.header.more.toNat + 64 * p.header.ack.toNat + 32 * p.header.priority.toNat
+      + 16 * p.header.ctl.toNat + p.header.ptype.val := by
+    unfold headerByte at hh
+    split at hh
+    · cases hh
+    · injection hh with hh; exact hh.symm
+  cases hm : p.header.more with
+  | false =>
+    rw [hm] at hr
+    simp only [Bool.false_eq_true, if_false] at hr
+    subst hr
+    simp only [List.length_nil] at hnn
+    have key : ¬(n / 256 = 16 ∧ n % 256 = 128) := by omega
+    simp [key, or_assoc]
+  | true =>
+    rw [hm] at hr
+    simp only [if_true] at hr
+    obtain ⟨rr, rb, -, hrb, hdec⟩ := hr
+    subst hrb
+    have hne : rb ≠ 16 := by
+      intro he; subst he; exact rrh_not_dle rr hdec
+    have hge : hb ≥ 128 := by rw [hbv, hm]; simp; omega
+    simp only [List.length_cons, List.length_nil] at hnn
+    have key : ¬(n / 256 = 16 ∧ n % 256 = 128) := by omega
+    have k2 : hb ≠ 16 := by omega
+    simp [hne, key, k2, or_assoc]
+
+
+/-- the other PDU types (query, de-registration, acknowledgement): `10 80` occurs nowhere but in the trailer -/
+theorem other_trailer_sites (p : Msg) (hwf : wf p = true) (ht : p.header.ptype.isReg = false) (bs : Bytes)
+    (h : asBytes p = .ok bs) : ∃ front, bs = front ++ trailer p ∧ hasPair 16 128 front = false := by
+  obtain ⟨hb, b, hh, hbody, h16, rfl⟩ := asBytes_shape p bs h
+  have tl := trailer_len p
+  generalize trailer p = t at *
+  refine ⟨(1 + b.length + t.length) / 256 :: (1 + b.length + t.length) % 256 :: hb :: b, by simp, ?_⟩
+  obtain ⟨hb', h1, -, -, h4⟩ := header_roundtrip p.header
+  rw [hh] at h1
+  injection h1 with h1
+  subst h1
+  obtain ⟨⟨hm, ha, hp, hc, ty⟩, rrh, rsh, dev, user, pw, csbk⟩ := p
+  have h0 : b = [] → hasPair 16 128 ((1 + b.length + t.length) / 256 :: (1 + b.length + t.length) % 256 :: hb :: b) = false := by
+    intro hb0; subst hb0
+    simp [hasPair]
+    omega
+  cases ty with
+  | devReg => simp [PduType.isReg] at ht
+  | userReg => simp [PduType.isReg] at ht
+  | userDereg => simp [wf] at hwf
+  | userRegResp => simp [wf] at hwf
+  | query => exact h0 (by simpa [bodyBytes] using hbody.symm)
+  | devDereg => exact h0 (by simpa [bodyBytes] using hbody.symm)
+  | response =>
+    cases hm with
+    | false => exact h0 (by simpa [bodyBytes] using hbody.symm)
+    | true =>
+      cases rsh with
+      | none => simp [wf] at hwf
+      | some r =>
+        have hr : okRsh ha r = true := by simpa [wf] using hwf
+        obtain ⟨b0, h1, -⟩ := rsh_roundtrip ha r hr
+        simp only [bodyBytes, if_true, h1] at hbody
+        injection hbody with hbody
+        subst hbody
+        have hc := response_code
+        simp only at h4
+        simp [hasPair]
+        omega
+
+/-- executable check used by the kernel-checked instances: serialise, find `10 80` in front of the trailer,
+parse back, compare with the normal form, re-serialise -/
+def straddleChk (p : Msg) : Bool :=
+  match asBytes p with
+  | .error _ => false
+  | .ok bs =>
+    wf p && hasPair 16 128 (bs.take (bs.length - (trailer p).length)) &&
+    (match fromBytes bs with
+     | .error _ => false
+     | .ok q => q == norm p && q.csbk == p.csbk && (asBytes q).toOption == some bs)
+
 end Dmr.Ars
